@@ -82,6 +82,12 @@ MODELS = [
      {"flux": 30.0, "step_size": 5.0, "energy_mean": 100.0, "energy_spread": 0.1, "particle_direction": "orthogonal", "stopping_power_curve": "@data/protons-in-silicon_stopping-power.csv"}, "seed"),
     ("pulse_processing", "pyxel.models.phasing.pulse_processing", "pulse_processing", "mkid", {"wavelength": 0.6, "responsivity": 1.0, "scaling_factor": 2.5e2}, None),
     ("sar_adc_with_noise", "pyxel.models.readout_electronics.sar_adc_with_noise", "sar_adc_with_noise", "ccd8", {"strengths": [0.0] * 8, "noises": [1e-3] * 8}, None),
+    # option combinations that switch one of a model's noise sources off (the other source still draws)
+    ("dark_current/fpn_only", "pyxel.models.charge_generation.dark_current", "dark_current", "ccd", {"figure_of_merit": 1.0, "spatial_noise_factor": 0.4, "temporal_noise": False}, "seed"),
+    ("dark_current/shot_only", "pyxel.models.charge_generation.dark_current", "dark_current", "ccd", {"figure_of_merit": 1.0, "temporal_noise": True}, "seed"),
+    ("dark_current_rule07/fpn_only", "pyxel.models.charge_generation.dark_current_rule07", "dark_current_rule07", "cmos", {"cutoff_wavelength": 2.5, "spatial_noise_factor": 0.4, "temporal_noise": False}, "seed"),
+    ("radiation_induced_dark_current/no_shot_noise", "pyxel.models.charge_generation.dark_current_induced", "radiation_induced_dark_current", "ccd",
+     {"depletion_volume": 64.0, "annealing_time": 0.1, "displacement_dose": 50.0, "shot_noise": False}, "seed"),
 ]
 
 
